@@ -165,6 +165,19 @@ def assert_bundle_attr(b: "Bundle", val: Any) -> None:
 _banned = ["signals", "bundles", "namespace"]
 
 
+def _is_reserved(bundle: "Bundle", name: str) -> bool:
+    """Boolean indication of whether `name` is unavailable for HDL attributes of `bundle`.
+    That is the protected names above, and those of all its other (Python-level) attributes, properties and methods:
+    dot-access to such a name produces that attribute, and never the HDL object."""
+    if name in _banned:
+        return True
+    try:
+        object.__getattribute__(bundle, name)
+    except AttributeError:
+        return False
+    return True
+
+
 @attrmagic.init
 class Bundle:
     """
@@ -221,7 +234,7 @@ class Bundle:
         if name is not None and val.name is not None:  # Both set, fail.
             msg = f"{val} with conflicting names {name} and {val.name} cannot be added to Bundle {self.name}"
             raise RuntimeError(msg)
-        if (name or val.name) in _banned:  # Protected names, just like for `setattr`
+        if _is_reserved(self, name or val.name):  # Protected names, just like for `setattr`
             msg = f"Error attempting to over-write protected attribute {name or val.name} of Bundle {self}"
             raise RuntimeError(msg)
         if name is not None:  # One or the other set - great.
@@ -251,15 +264,16 @@ class Bundle:
     def __setattr__(self, key: str, val: Any) -> None:
         """Set-attribute over-ride, organizing into type-based containers"""
 
-        if key.startswith("_") or not getattr(self, "_initialized", False):
-            # Bootstrapping phase. Pass along to "regular" setattr.
+        if not getattr(self, "_initialized", False) or (
+            key.startswith("_") and not is_bundle_attr(val)
+        ):
+            # Bootstrapping phase, and internal (non-HDL) state. Pass along to "regular" setattr.
             return super().__setattr__(key, val)
 
-        if key in _banned:
-            msg = f"Error attempting to over-write protected attribute {key} of Module {self}"
-            raise RuntimeError(msg)
         # Special case(s)
         if key == "name":
+            if val is not None and not isinstance(val, str):
+                raise TypeError(f"Bundle name must be a string, not {val}")
             return super().__setattr__(key, val)
         if key == "roles":
             if isinstance(val, EnumMeta):
@@ -271,6 +285,9 @@ class Bundle:
                 raise TypeError(f"Bundle roles must be an `RoleSet`, not {val}")
 
             return super().__setattr__(key, val)
+        if _is_reserved(self, key):
+            msg = f"Error attempting to over-write protected attribute {key} of Bundle {self}"
+            raise RuntimeError(msg)
 
         # Check it's a valid attribute-type
         assert_bundle_attr(self, val)
